@@ -1,3 +1,30 @@
-From Verif Require Import Base.
-Theorem placeholder : True. Proof. exact I. Qed.
-Print Assumptions placeholder.
+(* C09 — arguments and results arrive unchanged, in order, for every serializable type.
+   The serializer is a section parameter (marshal / unmarshal into a declared type): value
+   fidelity is the serializer's own round trip; what is proved is panrpc's plumbing for every
+   arity: the context is never transmitted, every other argument is encoded separately in order,
+   and argument i of the frame is decoded into parameter type i+1 (index arithmetic modelled
+   literally: an off-by-one on either side breaks the proof). *)
+From Verif Require Import Base Wire WireProofs.
+
+Theorem args_roundtrip :
+  forall (value payload ty : Type) (marshal : value -> payload) (unmarshal : payload -> ty -> value)
+         (dflt : payload) (ctx : carg value) (args : list (carg value)) (ptys : list (ptype ty)),
+    length ptys = length args ->
+    handler_args value payload ty unmarshal dflt (PCtx ty :: ptys)
+                 (request_args value payload marshal dflt (ctx :: args))
+    = DCtx _ _ :: spec_args value payload ty marshal unmarshal dflt args ptys.
+Proof. exact args_roundtrip_lemma. Qed.
+Print Assumptions args_roundtrip.
+
+Theorem context_not_transmitted :
+  forall (value payload : Type) (marshal : value -> payload) (dflt : payload) ctx args,
+    length (request_args value payload marshal dflt (ctx :: args)) = length args.
+Proof. exact request_args_length. Qed.
+Print Assumptions context_not_transmitted.
+
+(* non-vacuity: three arguments, one of them a function *)
+Example three_args :
+  handler_args nat nat nat (fun p t => p + t) 0 [PCtx nat; PData nat 100; PFunc nat; PData nat 200]
+               (request_args nat nat (fun v => v * 2) 0 [CCtx nat; CData nat 1; CFunc nat 7; CData nat 3])
+  = [DCtx nat nat; DVal nat nat 102; DProxy nat nat 14; DVal nat nat 206].
+Proof. reflexivity. Qed.
